@@ -22,7 +22,7 @@ WORK = os.path.join(ROOT, "work", "schemacode")
 
 PLAIN = ["a", "b", "ab", "x1", "hello", " ", "Z", "0", "-", "_", "é", "名", "ß", "q q", "#", "{", "}", "$"]
 HOSTILE = ["'", '"', "\\", "\n", '"""', "\\n", "\\b", "\\d", "\\'", "\\\\", "\t", "\r", "\\x41", "\\u00e9",
-           "\\101", "\\0", "''", '""', "\\\n", "\x7f", "​", "\xa0", "\\t", "😀", "\\z", "\\\"", "\\x4", "\\u12"]
+           "\\101", "\\0", "''", '""', "\\\n", "\x7f", "​", "\xa0", "\\t", "😀", "\\z", "\\\"", "\\x4", "\\u12", "\x00", "\x00"]
 # regex-safe pieces (each is a valid regex on its own and in concatenation)
 RE_PLAIN = ["a", "b+", "[0-9]", "x?", "(c|d)", "é", "-", "z*", "[a-c]{1,2}", " "]
 RE_HOSTILE = ["'", '"', "\\d", "\\.", "\\b", "\\\\", "\\n", "\n", '"""', "\t", "\\'", "\\w+", "\\s", "\\x41", "\\101",
@@ -36,7 +36,7 @@ BAD_NAMES = ["class", "my-prop", "1a", "__debug__", "None", "a b", "lambda", "x.
 ANN_KEYS = ["description", "description", "title", "$comment", "examples"]
 ANN_HOSTILE = ["\n    _additional_properties = False", "\n    pass", "\r    x = 1", "# c", "\nclass X:\n    pass", "\n", "\r\n",
                "\n    ", "\n\n", "\'\'\'", "\nq = 1", "\n        y: Integer()"]
-BAD = re.compile(r"\\N|\\U|\\u[dD][89a-fA-F]|\x00")
+BAD = re.compile(r"\\N|\\U|\\u[dD][89a-fA-F]")
 
 
 def payload(rng, p_hostile):
